@@ -224,6 +224,8 @@ type Sim struct {
 	ByteWise bool
 	down       bool
 	lockers    []*Locker
+	// Corrupt damages a pending reply stream (fault kind "corrupt"); set by the scenario.
+	Corrupt func(out []byte, arg int) []byte
 	// Identify names the calling goroutine for lock-wait identities (set by the harness).
 	Identify func() string
 }
@@ -843,6 +845,23 @@ func (s *Sim) applyFault(f *Fault) bool {
 		}
 		f.Target = fmt.Sprintf("c%d", l.ID)
 		l.StallS2C = time.Now().Add(f.Dur)
+	case "corrupt":
+		// the peer (or the network) damages the reply stream at an arbitrary point
+		var l *Link
+		for _, x := range s.LiveLinks() {
+			if len(x.S.Out) > 0 {
+				l = x
+				break
+			}
+		}
+		if l == nil || s.Corrupt == nil {
+			return false
+		}
+		f.Target = fmt.Sprintf("c%d", l.ID)
+		before := len(l.S.Out)
+		l.S.Out = s.Corrupt(l.S.Out, f.Arg)
+		s.Stats["fault.corrupted_streams"]++
+		s.logf("  corrupt c%d %d -> %d bytes", l.ID, before, len(l.S.Out))
 	case "refuse-dial":
 		s.refuseDials += 1 + f.Arg
 	case "node-restart":
